@@ -5,8 +5,11 @@ from symx import logic as L
 
 KEYWORDS = ['true', 'false', 'null', 'NaN', 'Infinity', '-Infinity']
 SPECIAL_FLOATS = [-0.0, 0.5, float('inf'), 1e300, 2.0 ** 63]
+# concrete integers that no float represents exactly, and the floats they round to
+BIG_INTS = [2 ** 53 + 1, 2 ** 63 + 1, -(2 ** 63) - 1, 10 ** 23]
+BIG_FLOATS = [2.0 ** 53, 2.0 ** 63, -(2.0 ** 63), 1e23]
 STR_LITS = ['', 'a', 'true', 'null', '\U0001F600']
-LITERALS = KEYWORDS + STR_LITS + [repr(f) for f in SPECIAL_FLOATS] + ['-inf']
+LITERALS = KEYWORDS + STR_LITS + [repr(f) for f in SPECIAL_FLOATS + BIG_FLOATS] + ['-inf'] + [repr(i) for i in BIG_INTS]
 
 
 class Bad:
@@ -62,6 +65,8 @@ def gen_leaf(eng, tag, kinds, sh=None):
         return eng.fresh_float('f' + tag)
     if k == 'special':
         return eng.special_float(sh.specials[eng.choose('sf' + tag, len(sh.specials))])
+    if k == 'bigint':
+        return BIG_INTS[eng.choose('bi' + tag, len(BIG_INTS))]
     if k == 'str':
         return gen_str(eng, tag, sh.lits)
     if k == 'bad':
